@@ -134,7 +134,7 @@ type world struct {
 	views       []mgrView
 	mgrOK       []bool
 	facCfgCalls [][2]int
-	lastName    map[int64]int
+	lastName    sync.Map // goroutine id -> updater instance whose Name() it called last (no lock: Name() is called right before a worker hands its error to Run)
 	runOfGo     map[int64]int
 	startOfGo   map[int64]*startState
 	worker      map[int64]*worker
@@ -150,6 +150,8 @@ type world struct {
 	gcHolders   int  // Run goroutines holding the "garbage-collection" lock
 	gcHook      func(run int)
 	meet        chan struct{}
+	fetchBars   []*barrier    // burst scenarios, per run: every worker of the run starts Fetch at the same moment
+	statusBars  []*barrier    // ... and leaves driveUpdater at the same moment
 	abort       chan struct{} // closed when the scenario cannot go on without crashing the process
 	abortOnce   sync.Once
 }
@@ -196,10 +198,7 @@ func (w *world) stray(what string) {
 }
 
 func (w *world) noteName(inst int) {
-	g := hx.GoID()
-	w.mu.Lock()
-	w.lastName[g] = inst
-	w.mu.Unlock()
+	w.lastName.Store(hx.GoID(), inst)
 }
 
 // runOfGoroutine: the run the goroutine is executing Manager.Run for (directly
@@ -577,7 +576,8 @@ func (l *lockSrc) TryLock(ctx context.Context, key string) (context.Context, con
 			r, okr = w.starts[sid].cur.id, true
 		}
 	}
-	inst, oki := w.lastName[g]
+	instV, oki := w.lastName.Load(g)
+	inst, _ := instV.(int)
 	w.lastTry = 0
 	c, f := l.real.TryLock(ctx, key)
 	if !okr || !oki || nameStr(w.sc.scripts[inst].name) != key || w.lastTry == 0 {
@@ -728,6 +728,15 @@ func (w *world) ret(rs *runState, err error, panicked bool) {
 		// the updaters handed to WithOutOfTree are configured updaters as well
 		if len(rs.view.droppedOOT) > 0 {
 			w.fail("enabled-drops-out-of-tree", fmt.Sprintf("out-of-tree-updaters-not-run-because-WithEnabled-came-after-WithOutOfTree run=%d missing=%d", rs.id, len(rs.view.droppedOOT)))
+		}
+	}
+	// ... with its own error, not another updater's
+	if err != nil {
+		for i, l := range strings.Split(err.Error(), "\n") {
+			if j := strings.Index(l, ":"); i > 0 && j > 0 && !strings.Contains(l, "["+l[:j]+"]") {
+				w.fail("", fmt.Sprintf("error-reported-for-an-updater-is-not-its-own run=%d line=%q", rs.id, l))
+				break
+			}
 		}
 	}
 	// a failed updater is named in the returned error (and only failed ones are)
@@ -1171,10 +1180,22 @@ func patRegexp(pat string) string {
 }
 
 func runScenario(r *hx.Run, seed uint64, idx int, sc *scenario) bool {
-	w := &world{r: r, sc: sc, idx: idx, seed: seed, lastName: map[int64]int{}, runOfGo: map[int64]int{}, startOfGo: map[int64]*startState{},
+	w := &world{r: r, sc: sc, idx: idx, seed: seed, runOfGo: map[int64]int{}, startOfGo: map[int64]*startState{},
 		worker: map[int64]*worker{}, byKey: map[[2]int]*worker{}, driving: map[int]*worker{}, configured: map[int]int{}, silent: sc.silent,
 		client: &http.Client{}, regBind: map[int]int{}, locks: updates.NewLocalLockSource(), meet: make(chan struct{}), abort: make(chan struct{})}
 	w.store = &store{w: w}
+	if sc.burst {
+		fetching := 0
+		for _, s := range sc.scripts {
+			if s.getOk {
+				fetching++
+			}
+		}
+		for range sc.runs {
+			w.fetchBars = append(w.fetchBars, newBarrier(fetching))
+			w.statusBars = append(w.statusBars, newBarrier(len(sc.scripts)))
+		}
+	}
 	for _, h := range sc.hist {
 		k := driver.VulnerabilityKind
 		if h.kind == 'e' {
@@ -1432,6 +1453,11 @@ func runScenario(r *hx.Run, seed uint64, idx int, sc *scenario) bool {
 		}
 	}
 	w.mu.Lock()
+	for _, b := range append(append([]*barrier{}, w.fetchBars...), w.statusBars...) {
+		if b != nil && b.timeouts.Load() > 0 {
+			r.Count("burst:barrier-timeout")
+		}
+	}
 	if !hung {
 		w.checkWorkers()
 	}
